@@ -49,6 +49,10 @@ def extra_subjects():
               task="reg", samplewise=True, cost=3),
             S("Quire[metric_dict=None]", "Quire", {}, None, samplewise=True, needs_classes=True, arbitrary_idx=False),
             S("TypiClust[default]", "TypiClust", {}, None),
+            S("TypiClust[cluster n_init]", "TypiClust", {"cluster_algo_dict": {"n_init": 1}}, None),
+            S("ProbCover[cluster n_init]", "ProbCover", {"cluster_algo_dict": {"n_init": 1}}, None),
+            S("Clue[cluster n_init]", "Clue", {"cluster_algo_dict": {"n_init": 1}}, "pwc", cost=2),
+            S("DropQuery[cluster n_init]", "DropQuery", {"cluster_algo_dict": {"n_init": 1}}, "pwc", cost=2),
             S("CostEmbeddingAL[default]", "CostEmbeddingAL", {}, None, samplewise=True, needs_classes=True, cost=20, quick=False),
         ]
     return EXTRA_SUBJECTS
